@@ -106,3 +106,77 @@ package xrand
 //@   loop 0: invariant itInv(iter) && len(out) == k && fresh(out) && samp.k == k && 0 <= i && i <= iter.pos
 //@   loop 1: invariant itInv(iter) && len(out) == k && fresh(out) && samp.k == k && 0 <= replace && (replace < k || k == 0) && 0 <= i && i <= iter.pos && (k == 0 ==> next == 9223372036854775807)
 //@   ensures len(result) <= k && iter.pos == iter.n
+
+// ---- exported wrappers: the package-level source (defaultRand) or a caller's *rand.Rand ----
+
+//@ func Sample
+//@   props C19
+//@   requires k >= 0 && 0 <= n && n < 9223372036854775807
+//@   ensures len(result) == min(k, n)
+//@   ensures forall j int {result[j]} :: 0 <= j && j < len(result) ==> 0 <= result[j] && result[j] < n
+//@   ensures forall j1 int, j2 int {result[j1], result[j2]} :: 0 <= j1 && j1 < j2 && j2 < len(result) ==> result[j1] != result[j2]
+
+//@ func RSample
+//@   props C19
+//@   requires k >= 0 && 0 <= n && n < 9223372036854775807
+//@   ensures len(result) == min(k, n)
+//@   ensures forall j int {result[j]} :: 0 <= j && j < len(result) ==> 0 <= result[j] && result[j] < n
+//@   ensures forall j1 int, j2 int {result[j1], result[j2]} :: 0 <= j1 && j1 < j2 && j2 < len(result) ==> result[j1] != result[j2]
+
+//@ func SampleSlice
+//@   props C19
+//@   requires k >= 0 && len(a) < 9223372036854775807
+//@   ensures len(result) == min(k, len(a)) && (forall t int {a[t]} :: 0 <= t && t < len(a) ==> a[t] == old(a[t]))
+
+//@ func RSampleSlice
+//@   props C19
+//@   requires k >= 0 && len(a) < 9223372036854775807
+//@   ensures len(result) == min(k, len(a)) && (forall t int {a[t]} :: 0 <= t && t < len(a) ==> a[t] == old(a[t]))
+
+//@ func SampleIterator
+//@   props C19
+//@   requires itInv(iter) && k >= 0 && iter.n < 9223372036854775807
+//@   modifies iter.pos, iter.pulls
+//@   ensures len(result) <= k && iter.pos == iter.n
+
+//@ func RSampleIterator
+//@   props C19
+//@   requires itInv(iter) && k >= 0 && iter.n < 9223372036854775807
+//@   modifies iter.pos, iter.pulls
+//@   ensures len(result) <= k && iter.pos == iter.n
+
+//@ func SampleStream
+//@   props C09 C19
+//@   requires stInv(s) && k >= 0 && s.n < 9223372036854775807
+//@   modifies s.pos, s.pulls, s.lasterr, s.closes
+//@   ensures C09: s.closes == 1
+//@   ensures result1 != nil ==> result0 == nil && result1 == s.lasterr
+//@   ensures result1 == nil ==> len(result0) <= k && s.pos == s.n
+
+//@ func RSampleStream
+//@   props C09 C19
+//@   requires stInv(s) && k >= 0 && s.n < 9223372036854775807
+//@   modifies s.pos, s.pulls, s.lasterr, s.closes
+//@   ensures C09: s.closes == 1
+//@   ensures result1 != nil ==> result0 == nil && result1 == s.lasterr
+//@   ensures result1 == nil ==> len(result0) <= k && s.pos == s.n
+
+//@ func Shuffle
+//@   props C19
+//@   modifies elems(a)
+//@   ghostinit p := lambda k int :: k
+//@   ghostinit q := lambda k int :: k
+//@   after call rShuffle[0]: ghost p := callghost_p
+//@   after call rShuffle[0]: ghost q := callghost_q
+//@   ensures permOf(a, p, q)
+//@   ensures forall k int {row(a)[k]} :: k < off(a) || k >= off(a) + len(a) ==> row(a)[k] == old(row(a)[k])
+
+//@ func RShuffle
+//@   props C19
+//@   modifies elems(a)
+//@   ghostinit p := lambda k int :: k
+//@   ghostinit q := lambda k int :: k
+//@   after call rShuffle[0]: ghost p := callghost_p
+//@   after call rShuffle[0]: ghost q := callghost_q
+//@   ensures permOf(a, p, q)
+//@   ensures forall k int {row(a)[k]} :: k < off(a) || k >= off(a) + len(a) ==> row(a)[k] == old(row(a)[k])
